@@ -208,6 +208,9 @@ def scale_contexts(rng, ref):
         yield 'scale:from-after:%d' % n, 'SELECT a FROM ' + ref + ', ' + ', '.join('t%d x%d' % (i, i) for i in range(n))
         yield 'scale:where-before-join:%d' % n, 'SELECT a FROM tt JOIN ' + ref + ' ON k1 = k2 WHERE ' + ' AND '.join('c%d = %d' % (i, i) for i in range(n))
     yield 'scale:tokens-12k', 'SELECT ' + ref + ', ' + ',  '.join('c%d' % i for i in range(3100)) + '  FROM tt'
+    # the reference BEHIND 12 000 tokens of the same list / of the enclosing list (a scan that gives up after N children of one list)
+    yield 'scale:tokens-12k-before', 'SELECT ' + ',  '.join('c%d' % i for i in range(3100)) + ', ' + ref + '  FROM tt'
+    yield 'scale:tokens-12k-before-from', 'SELECT ' + ',  '.join('c%d' % i for i in range(3100)) + ' FROM ' + ref
     for d in (25, 60):
         yield 'scale:nested-subquery:%d' % d, 'SELECT q FROM ' + '(SELECT q FROM ' * d + '(SELECT ' + ref + ' FROM tt) s0' + ') s' * d
         yield 'scale:nested-paren:%d' % d, 'SELECT ' + '(' * d + 'SELECT ' + ref + ' FROM tt' + ')' * d
@@ -311,7 +314,7 @@ def domain_skeleton(ctx):
                 break
 
 
-def as_alias_inside_typecast_parenthesis(text, ref):
+def as_alias_inside_typecast_parenthesis(text, ref, want=None):
     """mechanism of KF-C12-1: the written reference has an AS alias and lies inside a parenthesis that is directly followed by `::` — group_typecasts
     (an earlier pass) wraps that parenthesis into an Identifier, and group_as (class Identifier) never descends into Identifier instances"""
     if not re.search(r'\s+as\s+', ref, re.I):
@@ -325,7 +328,18 @@ def as_alias_inside_typecast_parenthesis(text, ref):
             i = n.parent.token_index(n)
             nx = n.parent.tokens[i + 1] if i + 1 < len(n.parent.tokens) else None
             if nx is not None and nx.match(T.Punctuation, '::'):
-                return True
+                # the mechanism loses ONLY the attachment of the AS alias: the name (with its qualifier) must still be an Identifier of its own
+                # inside that parenthesis, with the written parts — anything less is a different defect and is not classified
+                left = re.split(r'\s+as\s+', ref, flags=re.I)[0]
+                for m in _walk(n):
+                    if isinstance(m, sql.Identifier) and str(m) == left:
+                        try:
+                            parts = (m.get_real_name(), m.get_parent_name(), m.get_alias())
+                        except Exception:
+                            continue
+                        if want is None or parts == (want.get('real_name'), want.get('parent_name'), None):
+                            return True
+                return False
     return False
 
 
@@ -335,7 +349,7 @@ def classify(f, kf):
     if 'no Identifier node covers' in f.get('what', '') and not ref:
         ref = f.get('required') if isinstance(f.get('required'), str) else None
     for k in kf:
-        if k['id'] == 'KF-C12-1' and isinstance(f.get('input'), str) and isinstance(ref, str) and as_alias_inside_typecast_parenthesis(f['input'], ref):
+        if k['id'] == 'KF-C12-1' and isinstance(f.get('input'), str) and isinstance(ref, str) and as_alias_inside_typecast_parenthesis(f['input'], ref, ex.get('want') if isinstance(ex.get('want'), dict) else (f.get('required') if isinstance(f.get('required'), dict) else None)):
             return k['id']
     return None
 
